@@ -5,10 +5,11 @@
    (wf_rules: what adjustRule enforces) that buildRuleList accepts.
    Part 2 (updates): the state machine `step` of model/C13_Rules.v (restart, every kind of update with a
    storage fault at any write and any write order, foreign storage writes).  The model mirrors the code
-   as it is; where the unchanged code violates a clause the clause is stated in full, refuted by a
-   witness, and the strongest true statement is proved with the excluded class as a hypothesis. *)
+   as it is now, i.e. with the fixes 4fc9a45 and 4f573f0; the two clauses those fixes repaired were
+   stated in full and refuted before, and are proved at full strength now (the old witnesses stay as
+   regression Examples and in corpus/C13.json). *)
 From Coq Require Import String Permutation Sorting.Sorted.
-From PDV Require Import lib.Base lib.C12_Order gen.Gen_C13 model.C13_Rules proof.C13_RulesProof proof.C13_UpdateProof proof.C13_Skel.
+From PDV Require Import lib.Base lib.C12_Order gen.Gen_C13 model.C13_Rules proof.C13_RulesProof proof.C13_UpdateProof proof.C13_HistoryProof proof.C13_Skel.
 Local Open Scope list_scope.
 
 (* ---------- Part 1: the key-range index ---------- *)
@@ -67,44 +68,39 @@ Theorem C13_sweep_order_irrelevant :
     forall k, get_rules_by_key rl1 k = get_rules_by_key rl2 k.
 Proof. exact sweep_order_irrelevant. Qed.
 
-(* an accepted rule set leaves no key without a valid rule set (no rule / no voter or leader / several leaders) *)
-Definition C13_accepted_covers_every_key_full : Prop :=
+(* an accepted rule set leaves no key without a valid rule set (no rule / no voter or leader / several
+   leaders).  Refuted before the fix 4f573f0 (a single rule [0x10, +inf) was accepted); proved since. *)
+Theorem C13_accepted_covers_every_key :
   forall rules rl k, wf_rules rules -> build_rule_list rules = inr rl ->
     get_rules_by_key rl k <> [] /\ check_apply_rules (prepare_rules_for_apply (get_rules_by_key rl k)) = None.
+Proof. exact accepted_covers_every_key_pf. Qed.
 
+(* regression: the old witness is rejected now *)
 Definition gap_rule : rule := Rule [112;100]%N [114;49]%N 0 false [16]%N [] Voter 3 101 true (Some (default_group [112;100]%N)).
-
-(* REFUTED on the unchanged tree: one rule [0x10, +inf) is accepted; the keys below 0x10 have no rule *)
-Theorem C13_accepted_covers_every_key_refuted : ~ C13_accepted_covers_every_key_full.
-Proof.
-  intros H. specialize (H [gap_rule] [Range [16]%N [gap_rule] [gap_rule]] []).
-  destruct H as [H _].
-  - constructor; [repeat constructor; intros []|]. intros r [<-|[]]. left; reflexivity.
-  - vm_compute. reflexivity.
-  - apply H. vm_compute. reflexivity.
-Qed.
-
-Theorem C13_accepted_covers_every_key_partial :
-  forall rules rl k, wf_rules rules -> build_rule_list rules = inr rl ->
-    (exists b, boundary rules b /\ key_le b k) ->       (* excluded: keys below the first start key *)
-    get_rules_by_key rl k <> [] /\ check_apply_rules (prepare_rules_for_apply (get_rules_by_key rl k)) = None.
-Proof. exact covered_above_first_boundary. Qed.
-
-Corollary C13_accepted_covers_every_key_when_a_rule_starts_at_the_empty_key :
-  forall rules rl k y, wf_rules rules -> build_rule_list rules = inr rl -> In y rules -> r_start y = [] ->
-    get_rules_by_key rl k <> [] /\ check_apply_rules (prepare_rules_for_apply (get_rules_by_key rl k)) = None.
-Proof. exact covered_when_rule_starts_at_empty_key. Qed.
+Example C13_gap_rule_rejected : build_rule_list [gap_rule] = inl ENoRuleForRange.
+Proof. vm_compute. reflexivity. Qed.
 
 (* ---------- Part 2: updates ---------- *)
 
-(* a rejected update (adjustRule or buildRuleList error) changes nothing observable *)
-Definition C13_rejected_update_changes_nothing_full : Prop :=
-  forall ops u w m,
-    st_live (run_state step init_state ops) = Some m ->
-    forall st' o, step (run_state step init_state ops) (OUpdate u None w) = (st', o) ->
-    (o_res o = RErr EBuild \/ o_res o = RErr EContent) ->
-    option_map dump_of (st_live st') = Some (dump_of m) /\ st_store st' = st_store (run_state step init_state ops).
+(* an update that returns an error — rejected by adjustRule or buildRuleList, or failed at any storage
+   write — changes nothing that is served (the RuleManager is *equal* to what it was, so every observer
+   answers as before); a rejected one leaves the storage untouched as well.  In every reachable state:
+   any history of restarts, updates of every kind, storage faults and foreign storage writes.
+   Refuted before the fix 4fc9a45 (DESIGN.md section 7, S5); proved since. *)
+Theorem C13_rejected_update_changes_nothing :
+  forall ops u f w st' o e,
+    step (run_state step init_state ops) (OUpdate u f w) = (st', o) ->
+    o_res o = RErr e ->
+    st_live st' = st_live (run_state step init_state ops) /\
+    (e <> EStorage -> st_store st' = st_store (run_state step init_state ops)).
+Proof. exact rejected_update_changes_nothing_pf. Qed.
 
+Theorem C13_storage_failure_keeps_served :
+  forall m s p order f m' s' e ok,
+    canonical (m_conf m) -> try_commit m s p order f = (m', s', Some e, ok) -> m' = m /\ (e = EBuild -> s' = s).
+Proof. exact failed_update_changes_nothing. Qed.
+
+(* regression: the S5 history; the rejected SetRuleGroup{b, index 3, override} now leaves GetAllRules alone *)
 Definition s5_history : list op :=
   [ORestart 3;
    OUpdate (USetRule (Rule [97]%N [114;49]%N 0 false [] [] Voter 3 101 true None)) None [WRule [97]%N [114;49]%N];
@@ -112,36 +108,11 @@ Definition s5_history : list op :=
    OUpdate (USetRule (Rule [98]%N [114;50]%N 0 false [] [] Learner 1 102 true None)) None [WRule [98]%N [114;50]%N];
    OUpdate (USetGroup (Group [99]%N 2 false)) None [WGroup [99]%N];
    OUpdate (USetRule (Rule [99]%N [114;51]%N 0 false [] [] Voter 1 103 true None)) None [WRule [99]%N [114;51]%N]]%Z.
-
-(* REFUTED on the unchanged tree (DESIGN.md section 7, S5): SetRuleGroup{b, index 3, override} is rejected,
-   but GetAllRules now lists b/r2 after c/r3 *)
-Theorem C13_rejected_update_changes_nothing_refuted : ~ C13_rejected_update_changes_nothing_full.
-Proof.
-  intros H.
-  destruct (st_live (run_state step init_state s5_history)) as [m|] eqn:Em; [|vm_compute in Em; discriminate].
-  destruct (step (run_state step init_state s5_history) (OUpdate (USetGroup (Group [98]%N 3 true)) None [])) as [st' o] eqn:Es.
-  specialize (H s5_history (USetGroup (Group [98]%N 3 true)) [] m Em st' o Es).
-  vm_compute in Em. injection Em as <-. vm_compute in Es. injection Es as <- <-.
-  destruct H as [H _]; [left; reflexivity|]. vm_compute in H. discriminate.
-Qed.
-
-(* what does hold for every rejected or failed update, from every state: the index, the served groups,
-   the served rules up to their group pointers; the storage too when the patch was rejected *)
-Theorem C13_failed_update_keeps_served :
-  forall m s p order f m' s' e ok,
-    try_commit m s p order f = (m', s', Some e, ok) ->
-    m_list m' = m_list m /\ c_groups (m_conf m') = c_groups (m_conf m) /\
-    map (fun kr => (fst kr, strip (snd kr))) (c_rules (m_conf m')) =
-    map (fun kr => (fst kr, strip (snd kr))) (c_rules (m_conf m)) /\
-    (e = EBuild -> s' = s).
-Proof. exact failed_update_keeps_served. Qed.
-
-(* ... and nothing at all when the update does not touch a group (excluded class: patches with a group entry) *)
-Theorem C13_rejected_update_changes_nothing_partial :
-  forall m s p order f m' s' e ok,
-    conf_adjusted (m_conf m) -> m_groups p = [] ->
-    try_commit m s p order f = (m', s', Some e, ok) -> m' = m.
-Proof. exact failed_update_without_group_change. Qed.
+Example C13_s5_history_unchanged :
+  let st := run_state step init_state s5_history in
+  let '(st', o) := step st (OUpdate (USetGroup (Group [98]%N 3 true)) None []) in
+  o_res o = RErr EBuild /\ option_map (fun m => d_all (dump_of m)) (st_live st') = Some [101; 0; 102; 103]%Z /\ st_live st' = st_live st.
+Proof. vm_compute. repeat split. Qed.
 
 (* accepted updates are complete and durable: in every history that starts PD on an empty storage and
    then issues updates of any kind without storage faults (accepted or rejected, retries included), the
@@ -156,21 +127,27 @@ Theorem C13_storage_mirrors_served :
     end.
 Proof. exact storage_mirrors_served_pf. Qed.
 
-(* still to prove (Pass B): stated, not dropped *)
-(* after every accepted update of a fault-free history a restarted PD serves exactly what is served *)
-Definition C13_accepted_update_reload_equal_todo : Prop :=
-  forall ops, forallb is_fault_free ops = true ->
-    let st := run_state step init_state ops in
+(* after every update of a history that starts PD on an empty storage and issues updates of any kind
+   without storage faults (accepted or rejected; retries included), a PD restarted on the storage loads
+   exactly what is being served: every observer of the second RuleManager answers as the live one *)
+Theorem C13_accepted_update_reload_equal :
+  forall mr ups, forallb fault_free_update ups = true ->
+    let st := run_state step init_state (ORestart mr :: ups) in
     forall m, st_live st = Some m -> reload_dump (st_store st) = Some (dump_of m).
-(* after a storage failure retrying the same update converges to the state of the unfailed update *)
-Definition C13_retry_converges_todo : Prop :=
-  forall ops u f w1 w2, forallb is_fault_free ops = true ->
+Proof. exact accepted_update_reload_equal_pf. Qed.
+
+(* after a storage failure in the middle of an update, retrying the update converges: the retry ends in
+   exactly the state (served configuration, index, storage) the update would have produced had its first
+   attempt not failed.  In every reachable state (any history, including earlier faults and foreign
+   writes), whichever write failed, whether or not the failing write was applied, whatever the orders *)
+Theorem C13_retry_converges :
+  forall ops u f w1 w2 w3 st1 o1 st2 o2 st3 o3,
     let st := run_state step init_state ops in
-    forall st1 o1 st2 o2 st3 o3,
-      step st (OUpdate u f w1) = (st1, o1) -> o_res o1 = RErr EStorage ->
-      step st1 (OUpdate u None w2) = (st2, o2) -> o_res o2 = ROk ->
-      (exists w3, step st (OUpdate u None w3) = (st3, o3) /\ o_res o3 = ROk) ->
-      o_live o2 = o_live o3 /\ o_reload o2 = o_reload o3.
+    step st (OUpdate u (Some f) w1) = (st1, o1) -> o_res o1 = RErr EStorage ->
+    step st1 (ORetry u w2) = (st2, o2) -> o_res o2 = ROk ->
+    step st (OUpdate u None w3) = (st3, o3) -> o_res o3 = ROk ->
+    st2 = st3.
+Proof. exact retry_converges_pf. Qed.
 
 (* non-vacuity: nested, adjacent and unbounded ranges, an overriding group; five segments *)
 Example C13_nonvacuous :
@@ -196,9 +173,9 @@ Print Assumptions C13_apply_rules_for_region.
 Print Assumptions C13_split_keys_exact.
 Print Assumptions C13_prepare_eq_override_spec.
 Print Assumptions C13_sweep_order_irrelevant.
-Print Assumptions C13_accepted_covers_every_key_refuted.
-Print Assumptions C13_accepted_covers_every_key_partial.
-Print Assumptions C13_rejected_update_changes_nothing_refuted.
-Print Assumptions C13_failed_update_keeps_served.
-Print Assumptions C13_rejected_update_changes_nothing_partial.
+Print Assumptions C13_accepted_covers_every_key.
+Print Assumptions C13_rejected_update_changes_nothing.
+Print Assumptions C13_storage_failure_keeps_served.
 Print Assumptions C13_storage_mirrors_served.
+Print Assumptions C13_accepted_update_reload_equal.
+Print Assumptions C13_retry_converges.
